@@ -61,6 +61,8 @@ def case(draw):
         c["cpi"] = draw(st.sampled_from([0, 0, 0, 1, -1]))
         c["bigprime"] = draw(st.sampled_from([None, None, 2305843009213693951, 18446744073709551557, 9223372036854775837, 13835058055282163729]))
         c["tscale"] = list(draw(st.sampled_from(SCALES)))
+        # a second huge prime on the TARGET side: the ratio then holds two distinct primes that are equal as doubles (2^64-59 vs 2^64-95, 2^63+29 vs 2^63+...)
+        c["tbig"] = draw(st.sampled_from([None, None, None, 18446744073709551521, 18446744073709551557, 9223372036854775837]))
     else:
         c["const"] = draw(st.sampled_from(sorted(CONSTS)))
         c["x"] = draw(st.sampled_from([1, 2, 3, 7, 100, 127]))
@@ -95,8 +97,12 @@ def setup(c):
         cm = model.mmul(cm, {c["bigprime"]: F(1)})
         cexpr = "(%s * au::Magnitude<au::Prime<%dull>>{})" % (cexpr, c["bigprime"])
     tm = model.mag_of(c["tscale"][0], c["tscale"][1])
+    texpr = units.mag_cxx(c["tscale"][0], c["tscale"][1])
+    if c.get("tbig"):
+        tm = model.mmul(tm, {c["tbig"]: F(1)})
+        texpr = "(%s * au::Magnitude<au::Prime<%dull>>{})" % (texpr, c["tbig"])
     rho = model.mmul(cm, tm, -1)
-    return "", "au::make_constant(%s * %s)" % (base, cexpr), "(%s * %s)" % (base, units.mag_cxx(c["tscale"][0], c["tscale"][1])), rho
+    return "", "au::make_constant(%s * %s)" % (base, cexpr), "(%s * %s)" % (base, texpr), rho
 
 
 def value_case(c):
@@ -258,6 +264,10 @@ def run(ctx):
     grid.append({"kind": "lib", "const": "SPEED_OF_LIGHT", "T": "int32_t", "tscale": [1, 1], "tpre": None})
     grid.append({"kind": "lib", "const": "SPEED_OF_LIGHT", "T": "int32_t", "tscale": [1, 10], "tpre": None})
     grid.append({"kind": "lib", "const": "SPEED_OF_LIGHT", "T": "int16_t", "tscale": [1, 1], "tpre": "Kilo"})
+    # ratios holding two DISTINCT huge primes that coincide as doubles (2^64-59 / 2^64-95, and the reverse): not an integer, and not 1
+    for j, (pc, pt_) in enumerate([(18446744073709551557, 18446744073709551521), (18446744073709551521, 18446744073709551557), (9223372036854775837, 18446744073709551557)]):
+        for T in (["int32_t", "uint64_t", "long double", "double", "int8_t"] if not quick else [["int32_t", "uint64_t", "long double", "double", "int8_t"][(j + ctx.seed) % 5], "long double"]):
+            grid.append({"kind": "gen", "T": T, "t": {"k": "leaf", "n": "Meters"}, "cscale": [1, 1], "cpi": 0, "bigprime": pc, "tscale": [1, 1], "tbig": pt_})
     ctx.cov["grid_cases"] = len(grid)
     for c, v in zip(grid, judge(grid)):
         if v is not None:
